@@ -24,10 +24,13 @@ META = dict(
           "data of a multi-component function equal the sum of the separately constructed components cell by cell, the "
           "reorganisation energy is the sum of theirs, the parameter list of a sum is the concatenation (so a sum can be "
           "rebuilt and used again as a left operand: (a+b)+c = a+(b+c) = a+b+c cell by cell), in-place addition agrees, "
-          "and components at different temperatures are refused."),
+          "and components at different temperatures are refused. For spectral densities, the operand that + and += "
+          "rebuild from its stored (internal-unit) parameters is proved to be rebuilt under internal energy units "
+          "whatever units are current at the call, and the caller's units to be current again afterwards."),
     note=("internal energy units are current (the units machinery is C05); exp and tan are uninterpreted functions; the "
           "Matsubara sum uses the default number of terms; component types built through spectral densities and FFT "
-          "(UnderdampedBrownian, Underdamped, B777, CP29) and SpectralDensity.__add__ are not under contract; "
+          "(UnderdampedBrownian, Underdamped, B777, CP29) and the values of spectral-density sums are not under contract "
+          "(the units context is a ghost stack there and the constructor a recording stand-in); "
           "reorganisation energy recovered from the data (numerical quadrature) and even/odd Fourier parts are not decided."),
     technique="relational VCs by symbolic execution of the real constructors and operators (self-composition), z3",
 )
@@ -225,19 +228,74 @@ def contracts(reg):
         reg.add(Contract(CF + "CorrelationFunction." + f + "#different-temperatures", setup=lambda S: setup_add(S, False),
                          requires=["N >= 1", "T1 != T2"], raises={"Exception": dict(when="True")}))
 
+SD = "quantarhei/qm/corfunctions/spectraldensities.py::SpectralDensity"
+
+
+def contracts_sd(reg):
+    """spectral densities: a function that is rebuilt from its stored parameters (left operand of a + b, the operand of
+    a += a) must be rebuilt under internal energy units, whatever units are current at the call: the stored parameters
+    are internal-unit values.  Ghost protocol: the units context is a stack, the constructor records its top."""
+    from qvc.values import Obj, Builtin
+
+    def active(ex):
+        return (ex.registry.under_proof or "").startswith(SD + ".")
+
+    def hook(ex, cinfo, args, kwargs, line):
+        if not active(ex):
+            return None
+        if cinfo.name == "energy_units":
+            st = ex.__dict__.setdefault("units_stack", ["caller"])
+            u = args[0]
+            return (Obj("energy_units(stack)", {
+                "__enter__": Builtin("units.__enter__", lambda ex_, a, k, l: st.append(u)),
+                "__exit__": Builtin("units.__exit__", lambda ex_, a, k, l: st.pop())}),)
+        if cinfo.name == "SpectralDensity":
+            st = ex.__dict__.setdefault("units_stack", ["caller"])
+            ex.__dict__.setdefault("rebuilt_under", []).append(st[-1])
+            return (Obj("SpectralDensity(rebuilt)", {"axis": args[0], "params": list(args[1] if len(args) > 1 else kwargs.get("params")),
+                                                      "add_to_data": Builtin("rebuilt.add_to_data", lambda ex_, a, k, l: None),
+                                                      "data": ex.rebuilt_data, "lamb": ex.rebuilt_lamb}),)
+        return None
+    reg.models.hooks_instantiate.insert(0, hook)
+
+    def setup(S, same):
+        n = S.int("N")
+        ax = S.obj("FrequencyAxis(stub)", label="axis", length=n)
+        S.ex.units_stack = ["caller"]
+        S.ex.rebuilt_under = []
+        S.ex.rebuilt_data = S.array("rebuilt", (n,), "real")
+        S.ex.rebuilt_lamb = S.real("rebuilt_lamb")
+        a = S.obj(SD, label="self", axis=ax, params=[{"ftype": "OverdampedBrownian", "reorg": S.real("reorg_a")}],
+                  data=S.array("adata", (n,), "real"), lamb=S.real("lamb_a"), _is_composed=False, _is_empty=False)
+        b = a if same else S.obj(SD, label="other", axis=ax, params=[{"ftype": "OverdampedBrownian", "reorg": S.real("reorg_b")}],
+                                 data=S.array("bdata", (n,), "real"), lamb=S.real("lamb_b"), _is_composed=False, _is_empty=False)
+        return dict(self=a, other=b, N=n)
+
+    def ghost(S, env):
+        env["rebuilt_under"] = list(S.ex.rebuilt_under)
+        env["units_stack"] = list(S.ex.units_stack)
+    reg.add(Contract(SD + ".__add__#inside-any-units-context", setup=lambda S: setup(S, False), ghost=ghost, requires=["N >= 0"],
+                     ensures=[("left-operand-rebuilt-from-its-internal-unit-parameters-under-internal-units", "rebuilt_under == ['int']"),
+                              ("callers-units-restored", "units_stack == ['caller']")]))
+    reg.add(Contract(SD + ".add_to_data2#a-function-added-to-itself", setup=lambda S: setup(S, True), ghost=ghost, requires=["N >= 0"],
+                     ensures=[("operand-rebuilt-from-its-internal-unit-parameters-under-internal-units", "rebuilt_under == ['int']"),
+                              ("callers-units-restored", "units_stack == ['caller']")]))
+
 
 def plan(ctx):
     p = Plan("C09")
+    contracts_sd(ctx.registry)
     transparent_units_contexts(ctx.registry.models)
     contracts(ctx.registry)
     p.functions = [CF + "CorrelationFunction." + f + "#different-temperatures" for f in ("__add__", "add_to_data", "add_to_data2")]
     p.functions.append(CF + "CorrelationFunction.measure_reorganization_energy")
+    p.functions += [SD + ".__add__#inside-any-units-context", SD + ".add_to_data2#a-function-added-to-itself"]
     p.lemmas = [lemma_constructor_linear, lemma_three_components, lemma_addition]
     p.oracles = ["native/oracle_C09.py"]
     p.trusted = ["numpy.exp / numpy.tan are (uninterpreted) functions: equal arguments give equal values",
                  "internal energy units are current while the functions are built (unit conversions: C05)"]
     p.not_decided = ["component types built through SpectralDensity and FFT (UnderdampedBrownian, Underdamped, B777, CP29)",
-                     "SpectralDensity.__add__ and cfmatrix.py", "reorganisation energy recovered from the data (numerical quadrature)",
+                     "values of SpectralDensity sums (only the units protocol of the rebuild is under contract) and cfmatrix.py", "reorganisation energy recovered from the data (numerical quadrature)",
                      "even / odd Fourier parts being even / odd in frequency",
                      "more than three components per list (the proofs enumerate the list)"]
     p.extra_axioms = list(V.pi_axioms())
